@@ -30,8 +30,9 @@ func init() { modes["timer"] = modeFn{gen: timerGen, replay: timerReplay} }
 type timerRun struct {
 	c      *ctx
 	tm     *timer.Timer
-	writes int  // writes since the last tick
-	free   bool // some cycle since the last reset had more than one write
+	mc     *machine // the timer sits behind the real Mapper: register accesses use FF04-FF07
+	writes int      // writes since the last tick
+	free   bool     // some cycle since the last reset had more than one write
 	// coverage bookkeeping (computed from the public API and the counter hook only)
 	sinceIrq int
 	seen     map[int]bool
@@ -59,22 +60,22 @@ func f01(b []byte, v bool) []byte {
 
 // regs: DIV TMA TAC
 func (r *timerRun) regs(b []byte) []byte {
-	b = fx2(b, r.tm.ReadDIV())
+	b = fx2(b, r.mc.mapper.Read(0xff04))
 	b = append(b, ' ')
-	b = fx2(b, r.tm.ReadTMA())
+	b = fx2(b, r.mc.mapper.Read(0xff06))
 	b = append(b, ' ')
-	return fx2(b, r.tm.ReadTAC())
+	return fx2(b, r.mc.mapper.Read(0xff07))
 }
 
 // full: DIV TIMA TMA TAC IRQ
 func (r *timerRun) full(b []byte, irq bool) []byte {
-	b = fx2(b, r.tm.ReadDIV())
+	b = fx2(b, r.mc.mapper.Read(0xff04))
 	b = append(b, ' ')
-	b = fx2(b, r.tm.ReadTIMA())
+	b = fx2(b, r.mc.mapper.Read(0xff05))
 	b = append(b, ' ')
-	b = fx2(b, r.tm.ReadTMA())
+	b = fx2(b, r.mc.mapper.Read(0xff06))
 	b = append(b, ' ')
-	b = fx2(b, r.tm.ReadTAC())
+	b = fx2(b, r.mc.mapper.Read(0xff07))
 	b = append(b, ' ')
 	return f01(b, irq)
 }
@@ -119,16 +120,16 @@ func (r *timerRun) do(op string) string {
 		if w[0] == "reset" {
 			switch len(w) {
 			case 2:
-				r.tm = timer.New()
+				r.newTimer()
 				r.tm.VerifSetCounter(uint16(unhex4(w[1])))
 				r.writes, r.free, r.sinceIrq = 0, false, 99
 				return string(r.counterPart(r.full(nil, false)))
 			case 5:
 				cnt, a, m, k := unhex4(w[1]), unhex2(w[2]), unhex2(w[3]), unhex2(w[4])
-				r.tm = timer.New()
-				r.tm.WriteTAC(uint8(k))
-				r.tm.WriteTIMA(uint8(a))
-				r.tm.WriteTMA(uint8(m))
+				r.newTimer()
+				r.mc.mapper.Write(0xff07, uint8(k))
+				r.mc.mapper.Write(0xff05, uint8(a))
+				r.mc.mapper.Write(0xff06, uint8(m))
 				r.tm.VerifSetCounter(uint16(cnt) - 4)
 				irq := r.tm.EndMachineCycle()
 				r.writes, r.free, r.sinceIrq = 0, false, 99
@@ -140,8 +141,8 @@ func (r *timerRun) do(op string) string {
 			return "bad-op"
 		}
 		sig0 := timerSignal(r.tm)
-		tac0 := r.tm.ReadTAC() & 7
-		tima0 := r.tm.ReadTIMA()
+		tac0 := r.mc.mapper.Read(0xff07) & 7
+		tima0 := r.mc.mapper.Read(0xff05)
 		phase := 0
 		if r.sinceIrq == 0 {
 			phase = 1
@@ -160,7 +161,7 @@ func (r *timerRun) do(op string) string {
 			if r.free {
 				res = r.counterPart(r.regs(res))
 				res = append(res, ' ')
-				res = fx2(res, r.tm.ReadTIMA())
+				res = fx2(res, r.mc.mapper.Read(0xff05))
 				res = append(res, ' ')
 				res = f01(res, irq)
 			} else {
@@ -176,7 +177,7 @@ func (r *timerRun) do(op string) string {
 			if len(w) != 1 {
 				return "bad-op"
 			}
-			r.tm.WriteDIV(0)
+			r.mc.mapper.Write(0xff04, 0)
 			kind = 1
 		case "wtima", "wtma", "wtac":
 			if len(w) != 2 {
@@ -185,13 +186,13 @@ func (r *timerRun) do(op string) string {
 			v := uint8(unhex2(w[1]))
 			switch w[0] {
 			case "wtima":
-				r.tm.WriteTIMA(v)
+				r.mc.mapper.Write(0xff05, v)
 				kind = 2
 			case "wtma":
-				r.tm.WriteTMA(v)
+				r.mc.mapper.Write(0xff06, v)
 				kind = 3
 			default:
-				r.tm.WriteTAC(v)
+				r.mc.mapper.Write(0xff07, v)
 				kind = 4
 			}
 		default:
@@ -204,7 +205,7 @@ func (r *timerRun) do(op string) string {
 			r.writes++
 			res = r.counterPart(r.regs(res))
 			res = append(res, ' ')
-			res = fx2(res, r.tm.ReadTIMA())
+			res = fx2(res, r.mc.mapper.Read(0xff05))
 		}
 		sig1 := timerSignal(r.tm)
 		edge := 0
@@ -223,14 +224,14 @@ func (r *timerRun) do(op string) string {
 		key = key*3 + phase
 		key = key*5 + kind
 		key = key*3 + timaClass(tima0)
-		key = key*3 + timaClass(r.tm.ReadTIMA())
+		key = key*3 + timaClass(r.mc.mapper.Read(0xff05))
 		key = key*2 + bi(irq)
 		key = key*2 + bi(r.free)
 		if !r.seen[key] {
 			r.seen[key] = true
 			r.c.class(fmt.Sprintf("tac%d/%s/%s/%s/tima %s>%s/irq%d/%s", tac0,
 				[]string{"lo", "fall", "rise", "hi"}[edge], []string{"N", "Z", "L"}[phase], w[0],
-				[]string{"xx", "00", "ff"}[timaClass(tima0)], []string{"xx", "00", "ff"}[timaClass(r.tm.ReadTIMA())],
+				[]string{"xx", "00", "ff"}[timaClass(tima0)], []string{"xx", "00", "ff"}[timaClass(r.mc.mapper.Read(0xff05))],
 				bi(irq), []string{"guest", "free"}[bi(r.free)]))
 		}
 		r.buf = res
@@ -254,7 +255,8 @@ func unhex2(s string) int { return unhexN(s, 2, 0xff) }
 func unhex4(s string) int { return unhexN(s, 4, 0xffff) }
 
 func timerReplay(c *ctx, ops []string) {
-	r := &timerRun{c: c, tm: timer.New(), sinceIrq: 99, seen: map[int]bool{}}
+	r := &timerRun{c: c, sinceIrq: 99, seen: map[int]bool{}}
+	r.newTimer()
 	for _, op := range ops {
 		r.do(op)
 	}
@@ -324,7 +326,8 @@ func (r *timerRun) allWords(start string, alphabet []string, length int) int {
 }
 
 func timerGen(c *ctx) {
-	r := &timerRun{c: c, tm: timer.New(), sinceIrq: 99, seen: map[int]bool{}}
+	r := &timerRun{c: c, sinceIrq: 99, seen: map[int]bool{}}
+	r.newTimer()
 	starts := timerStarts()
 	alphabet := []string{"t", "wdiv", "wtima ff", "wtima 31", "wtma ff", "wtma 31", "wtac 05", "wtac 06", "wtac 00"}
 	// quick: all words of length 4 from every start, length 5 from every fourth start;
@@ -451,4 +454,13 @@ func timerGen(c *ctx) {
 	}
 	c.notes["random_walks"] = walks
 	c.notes["random_walk_ops"] = steps
+}
+
+// newTimer builds a whole machine (as gameboy.New wires it) and uses its timer
+func (r *timerRun) newTimer() {
+	if r.mc == nil {
+		r.mc = newMachine(make([]byte, 0x8000), false)
+		r.tm = r.mc.timer
+	}
+	r.tm.VerifReset()
 }
